@@ -510,6 +510,9 @@ def select_units(units, prop, tier, only=None):
         if prop not in u.get('props', []):
             continue
         t = u.get('tier', 'quick')
+        if t == 'off':
+            # kept for the record (tool limit reached, see the unit's comment); only runnable with --unit
+            continue
         if tier == 'quick' and t != 'quick':
             continue
         if only and only not in u['name']:
